@@ -219,6 +219,75 @@ func TestSameNodeManyOperands(t *testing.T) {
 	evid.Exhaustive("one operator node evaluated in a loop over operands of changing types", n)
 }
 
+// TestLongChains: one un-parenthesised chain of n binary operators, n from 1 to several hundred: every operand is
+// evaluated once, in order, and contributes to the result (size boundaries such as 32 / 64 / 128 / 256 included).
+func TestLongChains(t *testing.T) {
+	lengths := []int{}
+	for n := 1; n <= 70; n++ {
+		lengths = append(lengths, n)
+	}
+	lengths = append(lengths, 95, 96, 97, 98, 99, 100, 127, 128, 129, 130, 200, 255, 256, 257, 258, 300)
+	kinds := []string{"sum", "mixed", "concat", "probed", "logic", "div0-late", "float"}
+	n := 0
+	for li, ln := range lengths {
+		for ki, kind := range kinds {
+			if (li+ki)%evid.NShards() != evid.Shard() {
+				continue
+			}
+			var e *gen.Node
+			operand := func(i int) *gen.Node {
+				switch kind {
+				case "concat":
+					return gen.NStr(fmt.Sprintf("%d,", i))
+				case "probed":
+					if i%5 == 0 {
+						return gen.NCall("pval", gen.NInt(int64(i)))
+					}
+					return gen.NInt(int64(i))
+				case "logic":
+					return gen.NCall("pval", gen.NBool(i != ln-1))
+				case "float":
+					return gen.NFloat(float64(i) + 0.5)
+				case "div0-late":
+					return gen.NInt(int64(i%7 + 1))
+				}
+				return gen.NInt(int64(i%9 + 1))
+			}
+			op := func(i int) string {
+				switch kind {
+				case "mixed":
+					return []string{"+", "-", "*", "+", "-"}[i%5]
+				case "logic":
+					return "&&"
+				case "div0-late":
+					if i == ln-1 {
+						return "/"
+					}
+					return "+"
+				}
+				return "+"
+			}
+			e = operand(0)
+			for i := 1; i <= ln; i++ {
+				r := operand(i)
+				if kind == "div0-late" && i == ln {
+					r = gen.NParen(gen.NBin("-", gen.NInt(1), gen.NInt(1)))
+				}
+				e = gen.NBin(op(i-1), e, r)
+			}
+			prog := []*gen.Node{gen.NCall("probe", gen.NStr("r"), e), gen.NCall("probe", gen.NStr("after"))}
+			if kind == "sum" && ln%3 == 0 {
+				// the same chain as the right operand of a product and inside a list
+				prog = []*gen.Node{gen.NCall("probe", gen.NStr("r"), gen.NBin("*", gen.NInt(2), gen.NParen(e)), gen.NList(e.Clone()))}
+			}
+			c := sem.NewCase(gen.FixAll(prog))
+			judge(t, "chains", c, fmt.Sprintf("chain/%s/%d", kind, ln), "long-chain/"+kind)
+			n++
+		}
+	}
+	evid.Exhaustive("operator chains of 1..70 and boundary lengths up to 300 x 7 chain kinds", n)
+}
+
 // TestShortCircuitTable: && and || with probes on both sides over all operand pairs.
 func TestShortCircuitTable(t *testing.T) {
 	vals := sgen.OperandValues()
